@@ -21,8 +21,8 @@ LEVEL_TEXT = (
     "measurement, free, EPR keep, flush and close on generic and NV configurations with and without "
     "the transpiler, incl. the NV relocation with its peephole as coded; Agree after every flush; "
     "id reuse after free/destructive measurement. PARTIAL: the hypothesis `good` excludes the open "
-    "findings F12 (context blocks), F29 (sequential keep), F28 (NV multi-pair keep; the proved part "
-    "covers NV keep of one pair at a time) and F30 (carbon-carbon gates under the NV transpiler while "
+    "findings F12 (context blocks), F29 (sequential keep), F28 (NV multi-pair keep while an id in "
+    "1..n-1 is taken after the relocation; every other NV keep is proved) and F30 (carbon-carbon gates under the NV transpiler while "
     "id 0 is free); each has a kernel-proved counter-example. Tie: differential correspondence of "
     "the compiled model with the real SDK -> bytes -> Executor pipeline after every operation "
     "(handle ids/active flags, executed allocation events, unit module, error class).")
